@@ -183,6 +183,8 @@ structure Ev where
   usage : Vec   -- running (prod) usage of the source node at the call
   high  : Vec   -- its (prod) high threshold
   avail : Vec   -- remaining headroom of the underused nodes at the call
+  moved : Bool  -- the call succeeded and the pod has a metric: the estimates are decremented by `metric`
+  metric : Vec
 deriving Repr, DecidableEq
 
 structure LoopOut where
@@ -203,7 +205,7 @@ def evictLoop (dry prod : Bool) (nid : Nat) (high : Vec) : Vec → Vec → List 
       if p.hasMetric then evictLoop dry prod nid high (vsub cur p.metric) (vsub avail p.metric) ps
       else evictLoop dry prod nid high cur avail ps
     else
-      let e : Ev := ⟨nid, p.id, prod, p.evictOK, cur, high, avail⟩
+      let e : Ev := ⟨nid, p.id, prod, p.evictOK, cur, high, avail, p.evictOK && p.hasMetric, p.metric⟩
       let r := if p.evictOK && p.hasMetric
                then evictLoop dry prod nid high (vsub cur p.metric) (vsub avail p.metric) ps
                else evictLoop dry prod nid high cur avail ps
